@@ -595,12 +595,17 @@ class Struct(Type):
                         'offset': fd['offset'] + offset,
                     }
                     for name, fd in viewitems(field._fields_desc)
+                    # The renamed anonymous fields of the anon field would
+                    # clash with the ones of this Struct
+                    if not name.startswith('__anon_')
                 }
 
-                # Add the newly generated fields from the anon field
+                # Add the newly generated fields from the anon field (and the
+                # ones it has itself generated from its anonymous fields)
                 self._fields_desc.update(updated_fields)
                 real_fields += [(name, fld, True)
-                                for name, fld in field.fields]
+                                for name, fld, _ in field.all_fields
+                                if not name.startswith('__anon_')]
 
                 # Rename the anonymous field
                 fname = '__anon_%x' % uniq_count
